@@ -393,6 +393,8 @@ def run(ctx):
     ctx.given(cases(), check, quick=60, thorough=3000)
     if EXCLUDE_R9:
         ctx.exclude("R9", ctx.evaluations - n0)
+    if c29.EXCLUDE_INT_NOMAP:
+        ctx.exclude("interstitial-nomap (supercells dropped from generated pools)", su.COUNTERS["nomap_dropped"])
 
 
 def replay(case):
